@@ -216,7 +216,11 @@ fn parse_vals(a: &Value) -> Vec<(usize, Val)> {
 
 // ---------------------------------------------------------------- the fmt layer
 type BoxL = Box<dyn Subscribe<Registry> + Send + Sync>;
-fn layer<W>(w: W, b: &Value) -> BoxL
+enum Stack {
+    L(BoxL),
+    D(Dispatch),
+}
+fn layer<W>(w: W, b: &Value) -> Stack
 where
     W: for<'a> MakeWriter<'a> + Send + Sync + 'static,
 {
@@ -243,37 +247,58 @@ where
                 .with_span_events(se.clone())
         };
     }
-    macro_rules! timed {
+    // two front ends over the same formatter: the `fmt::subscriber()` layer on a registry, and the `fmt()` collector builder
+    // (its own option forwarding and its own Collect impl); `$fin` finishes either into a Stack
+    macro_rules! choose {
+        ($base:expr, $fin:ident) => {{
+            let base = $base;
+            // `opts_first`: the display options are set BEFORE the format is chosen (fmt().with_target(false).compact()): the same record
+            if b["opts_first"].as_bool().unwrap_or(false) {
+                match b["format"].as_str().unwrap_or("full") {
+                    "compact" => $fin!(common!(base).compact()),
+                    "pretty" => $fin!(common!(base).pretty()),
+                    "json" => $fin!(common!(base).json().flatten_event(t("flatten", false)).with_current_span(t("current_span", true)).with_span_list(t("span_list", true))),
+                    _ => $fin!(common!(base)),
+                }
+            } else {
+                match b["format"].as_str().unwrap_or("full") {
+                    "compact" => $fin!(common!(base.compact())),
+                    "pretty" => $fin!(common!(base.pretty())),
+                    "json" => $fin!(common!(base.json().flatten_event(t("flatten", false)).with_current_span(t("current_span", true)).with_span_list(t("span_list", true)))),
+                    _ => $fin!(common!(base)),
+                }
+            }
+        }};
+    }
+    macro_rules! as_layer {
         ($l:expr) => {
             if t("time", false) {
-                Box::new($l) as BoxL
+                Stack::L(Box::new($l) as BoxL)
             } else {
-                Box::new($l.without_time()) as BoxL
+                Stack::L(Box::new($l.without_time()) as BoxL)
             }
         };
     }
-    let base = tracing_subscriber::fmt::subscriber().with_writer(w);
-    // `opts_first`: the display options are set BEFORE the format is chosen (fmt().with_target(false).compact()): the same record
-    if b["opts_first"].as_bool().unwrap_or(false) {
-        return match b["format"].as_str().unwrap_or("full") {
-            "compact" => timed!(common!(base).compact()),
-            "pretty" => timed!(common!(base).pretty()),
-            "json" => timed!(common!(base).json().flatten_event(t("flatten", false)).with_current_span(t("current_span", true)).with_span_list(t("span_list", true))),
-            _ => timed!(common!(base)),
+    macro_rules! as_collector {
+        ($l:expr) => {
+            if t("time", false) {
+                Stack::D(Dispatch::new($l.finish()))
+            } else {
+                Stack::D(Dispatch::new($l.without_time().finish()))
+            }
         };
     }
-    match b["format"].as_str().unwrap_or("full") {
-        "compact" => timed!(common!(base.compact())),
-        "pretty" => timed!(common!(base.pretty())),
-        "json" => timed!(common!(base.json().flatten_event(t("flatten", false)).with_current_span(t("current_span", true)).with_span_list(t("span_list", true)))),
-        _ => timed!(common!(base)),
+    if b["front"] == "builder" {
+        choose!(tracing_subscriber::fmt().with_max_level(Level::TRACE).with_writer(w), as_collector)
+    } else {
+        choose!(tracing_subscriber::fmt::subscriber().with_writer(w), as_layer)
     }
 }
 
 fn lf(r: u64) -> tracing_core::LevelFilter {
     vh_common::rec::filter_of_rank(r)
 }
-fn build(b: &Value, log: &Log) -> BoxL {
+fn build(b: &Value, log: &Log) -> Stack {
     let w = &b["writer"];
     let failing: Vec<u64> = w["failing"].as_array().map(|a| a.iter().map(|x| x.as_u64().unwrap()).collect()).unwrap_or_default();
     let short_id = w["short"]["id"].as_u64().unwrap_or(0);
@@ -334,7 +359,10 @@ fn child() {
     vh_common::quiet_panics();
     let b = runner::child_input();
     let log = new_log();
-    let d = Dispatch::new(tracing_subscriber::registry().with(build(&b, &log)));
+    let d = match build(&b, &log) {
+        Stack::L(l) => Dispatch::new(tracing_subscriber::registry().with(l)),
+        Stack::D(d) => d,
+    };
     let spans: Arc<Mutex<HashMap<u64, Span>>> = Arc::new(Mutex::new(HashMap::new()));
     let mut ws: Workers<Ctx> = Workers::new(|| Ctx { default: None, entered: vec![] });
     for (n, step) in b["steps"].as_array().unwrap().iter().enumerate() {
